@@ -359,6 +359,13 @@ impl Run {
         t.transitions += transitions;
         t.traces += traces;
     }
+    pub fn replay_requested(&self) -> bool {
+        self.args.replay.is_some()
+    }
+    /// number of cases recorded so far under class `c` (for vacuity guards)
+    pub fn class_total(&self, c: &str) -> u64 {
+        self.total.lock().unwrap().hist.get(c).copied().unwrap_or(0)
+    }
     pub fn add_class(&self, c: &str, n: u64) {
         *self.total.lock().unwrap().hist.entry(c.to_string()).or_insert(0) += n;
     }
